@@ -108,7 +108,7 @@ def prune_cache(keep):
     except OSError:
         return
     ents.sort(key=lambda p: os.path.getmtime(p), reverse=True)
-    for p in ents[4:]:
+    for p in ents[30:]:
         if os.path.basename(p) != keep:
             shutil.rmtree(p, ignore_errors=True)
 
